@@ -108,7 +108,10 @@ fn gen_case(seed: u64, idx: u64, kmax: u32) -> Case {
     };
     let data = r.bytes(k as usize * t);
     let mut repair = std::collections::BTreeSet::new();
-    let want = 4 + r.below(12) as usize;
+    // one case in two is a "wide" case: enough repair symbols for overheads around and beyond
+    // H and S+H (where the decoder's GF(2)-only attempt is tried, fails or succeeds)
+    let wide = r.below(2) == 0;
+    let want = if wide { 24 + r.below(60) as usize } else { 4 + r.below(12) as usize };
     while repair.len() < want {
         let e = match r.below(3) {
             0 => k + r.below(40) as u32,
@@ -120,14 +123,20 @@ fn gen_case(seed: u64, idx: u64, kmax: u32) -> Case {
     let repair_esis: Vec<u32> = repair.into_iter().collect();
     // erasure pattern: drop some source symbols, add repair symbols; overhead -1..3 so that
     // undecodable sets occur too
-    let drop = (1 + r.below(repair_esis.len().min(k as usize) as u64)) as usize;
+    let drop = if wide { (1 + r.below(4.min(k as u64))) as usize } else { (1 + r.below(repair_esis.len().min(k as usize) as u64)) as usize };
     let mut src: Vec<u32> = (0..k).collect();
     for i in (1..src.len()).rev() {
         let j = r.below(i as u64 + 1) as usize;
         src.swap(i, j);
     }
     src.truncate(k as usize - drop);
-    let overhead = r.below(4) as i64 - 1;
+    let overhead = if !wide {
+        r.below(4) as i64 - 1
+    } else if r.below(3) < 2 {
+        7 + r.below(14) as i64
+    } else {
+        r.below((want - drop) as u64 + 1) as i64
+    };
     let n_rep = ((drop as i64 + overhead).max(0) as usize).min(repair_esis.len());
     let mut received = src;
     received.extend(repair_esis.iter().take(n_rep));
@@ -171,14 +180,24 @@ fn run_case(c: &Case, plan: Plan, enc_thr: u32, dec_thr: u32) -> (bool, String) 
     dec.verif_set_sparse_threshold(dec_thr);
     let mut out = None;
     let mut n_src = 0;
-    for &e in &c.received {
-        let p = if e < c.k {
-            n_src += 1;
+    let pkt = |e: u32| -> EncodingPacket {
+        if e < c.k {
             src[e as usize].clone()
         } else {
             rep[c.repair_esis.iter().position(|&x| x == e).unwrap()].clone()
-        };
-        out = dec.decode(std::iter::once(p));
+        }
+    };
+    // long reception lists are fed one by one only up to the first answer (a block decoder
+    // re-solves on every later call, which the debug-assertion builds cannot afford)
+    let long = c.received.len() > c.k as usize + 3;
+    for &e in &c.received {
+        if e < c.k {
+            n_src += 1;
+        }
+        out = dec.decode(std::iter::once(pkt(e)));
+        if long && out.is_some() {
+            break;
+        }
     }
     let nontrivial = out.is_some() && n_src < c.k;
     match &out {
@@ -187,6 +206,17 @@ fn run_case(c: &Case, plan: Plan, enc_thr: u32, dec_thr: u32) -> (bool, String) 
             buf.extend_from_slice(b);
         }
         None => buf.push(0),
+    }
+    // the same reception set once more, handed to a fresh decoder in ONE call (with enough
+    // overhead this takes the GF(2)-only attempt and, when that fails, its fall-back)
+    let mut dec2 = SourceBlockDecoder::new(0, &cfg, (c.k as usize * c.t) as u64);
+    dec2.verif_set_sparse_threshold(dec_thr);
+    match dec2.decode(c.received.iter().map(|&e| pkt(e))) {
+        Some(b) => {
+            buf.push(3);
+            buf.extend_from_slice(&b);
+        }
+        None => buf.push(2),
     }
     (nontrivial, sha256(&buf))
 }
